@@ -232,8 +232,9 @@ class MESolver(SESolver):
         self._num_collapse = len(c_ops)
 
         rhs = H if H.issuper else liouvillian(H)
-        rhs += sum(c_op if c_op.issuper else lindblad_dissipator(c_op)
-                   for c_op in c_ops)
+        # Not `+=`: for a QobjEvo it is in-place and `rhs` can be the user's H.
+        rhs = rhs + sum(c_op if c_op.issuper else lindblad_dissipator(c_op)
+                        for c_op in c_ops)
 
         Solver.__init__(self, rhs, options=options)
 
